@@ -188,6 +188,12 @@ def build_harness(scratch, groups):
     if p.returncode != 0:
         raise Broken("correspondence", "harness does not build against the working tree (tags %s)" % tags,
                      p.stdout[-4000:])
+    if os.path.isdir(os.path.join(scratch.src, "verifdump")) and "vui" in groups:
+        dump = os.path.join(scratch.dir, "verifdump.bin")
+        p = subprocess.run(["go", "build", "-tags", tags, "-o", dump, "./verifdump"], cwd=scratch.src, env=GOENV,
+                           stdout=subprocess.PIPE, stderr=subprocess.STDOUT, text=True)
+        if p.returncode != 0:
+            raise Broken("correspondence", "verifdump does not build", p.stdout[-2000:])
     return out
 
 
